@@ -212,7 +212,7 @@ pub fn run(ctx: &mut Ctx) {
     assert_spec_matches::<V>(&rs);
     let quick = ctx.quick();
     let max_comp = ctx.tier.pick(10, 13);
-    ctx.meta("rule", "cases: (input, buffered set, async read schedule); inputs = documents of T∘E and their truncations / corruptions, documents > 64 KiB; schedules = ALL compositions of the input into async read results for inputs up to the composition bound (+ Pending with self-wake before reads), <= 2 short reads otherwise; buffered sets: none, each single master present, all; both the next().await loop (offsets compared) and into_stream() (items compared) on a single-threaded executor. Oracle: items, offsets and first error equal the blocking iterator over the same bytes, ending once. Known finding D17 is narrowed by a defect model (blocking iterator fed one chunk per next() call): a multi-read schedule may deviate only exactly as that model predicts; single-read schedules, the stream adapter's agreement with the loop, and termination-once must hold outright. Non-trivial: schedules with >= 2 non-empty reads.");
+    ctx.meta("rule", "cases: (input, buffered set, async read schedule); inputs = documents of T∘E and their truncations / corruptions, documents > 64 KiB (one > 128 KiB with a 200 KB item); schedules = ALL compositions of the input into async read results for inputs up to the composition bound (+ Pending with self-wake before reads), <= 2 short reads otherwise; buffered sets: none, each single master present, all; both the next().await loop (offsets compared) and into_stream() (items compared) on a single-threaded executor. Oracle: items, offsets and first error equal the blocking iterator over the same bytes, ending once. Known finding D17 is narrowed by a defect model (blocking iterator fed one chunk per next() call): a multi-read schedule may deviate only exactly as that model predicts; single-read schedules, the stream adapter's agreement with the loop, and termination-once must hold outright. Non-trivial: schedules with >= 2 non-empty reads.");
     ctx.meta("bounds", &format!("all compositions for inputs <= {} bytes; documents <= {} elements; 2 inputs > 64 KiB", max_comp, ctx.tier.pick(3, 4)));
     ctx.meta("assumptions", "single-threaded futures executor; a Pending poll wakes itself immediately");
     for c in ["single_read_schedules_equal_to_blocking", "multi_read_schedules_equal_to_blocking", "pending_polls"] {
